@@ -276,7 +276,7 @@ func (w *world) expiryVerdictAfterRestart(where string, lApp int64, describe fun
 		if err := crash.CopyTree(w.leader.dir, dir); err != nil {
 			w.fatalf("harness: copy: %v", err)
 		}
-		c := w.newPartition(dir, leaderID, nil)
+		c := w.newPartition(dir, leaderID)
 		if err := c.part.BuildReplicaForLeader(leaderID, ids); err != nil {
 			w.fatalf("harness: build replica on the copy: %v", err)
 		}
